@@ -4,6 +4,7 @@ CONSTANTS
   SyncNotify = TRUE
   UnregUnderRead = FALSE
   HbLeak = FALSE
+  ResendHoldsSession = FALSE
   RetentionHoldsRead = FALSE
 INVARIANTS LocksConsistent
 PROPERTIES WriteReturns AllReturn
